@@ -190,6 +190,10 @@ C07_SITES = [
 ('sparseMLSyncInc', 'include/AIToolbox/MDP/SparseMaximumLikelihoodModel.hpp', 'void\\s+SparseMaximumLikelihoodModel<E>::sync\\s*\\(\\s*const\\s+size_t\\s+s\\s*,\\s*const\\s+size_t\\s+a\\s*,\\s*const\\s+size_t\\s+s1\\s*\\)\\s*\\{', '{constautovisitSum=experience_.getVisitsSum(s,a);if(!(visitSum%PERIODul))returnsync(s,a);if(rewards_.coeff(s,a)!=experience_.getReward(s,a))rewards_.coeffRef(s,a)=experience_.getReward(s,a);if(visitSum==1ul){transitions_[a].row(s)*=0.0;transitions_[a].coeffRef(s,s1)=1.0;}else{constdoublenewVisits=static_cast<double>(experience_.getVisits(s,a,s1));constdoublenewTransitionValue=newVisits/static_cast<double>(visitSum-1);constdoublenewVectorSum=1.0+(newTransitionValue-transitions_[a].coeff(s,s1));transitions_[a].coeffRef(s,s1)=newTransitionValue;transitions_[a].row(s)/=newVectorSum;}}'),
 ('sparseMLGetTP', 'include/AIToolbox/MDP/SparseMaximumLikelihoodModel.hpp', 'double\\s+SparseMaximumLikelihoodModel<E>::getTransitionProbability\\s*\\([^)]*\\)\\s*const\\s*\\{', '{returntransitions_[a].coeff(s,s1);}'),
 ('sparseMLGetER', 'include/AIToolbox/MDP/SparseMaximumLikelihoodModel.hpp', 'double\\s+SparseMaximumLikelihoodModel<E>::getExpectedReward\\s*\\([^)]*\\)\\s*const\\s*\\{', '{returnrewards_.coeff(s,a);}'),
+('coopTSGetTP', 'src/Factored/MDP/CooperativeThompsonModel.cpp', 'double\\s+CooperativeThompsonModel::getTransitionProbability\\s*\\([^)]*\\)\\s*const\\s*\\{', '{returntransitions_.getTransitionProbability(s,a,s1);}'),
+('coopTSGetER', 'src/Factored/MDP/CooperativeThompsonModel.cpp', 'double\\s+CooperativeThompsonModel::getExpectedReward\\s*\\([^)]*\\)\\s*const\\s*\\{', '{constauto&S=experience_.getS();doubleretval=0.0;for(size_ti=0;i<S.size();++i){constautoj=experience_.getGraph().getId(i,s,a);retval+=rewards_[i][j];}returnretval;}'),
+('coopTSGetERs', 'src/Factored/MDP/CooperativeThompsonModel.cpp', 'void\\s+CooperativeThompsonModel::getExpectedRewards\\s*\\([^)]*\\)\\s*const\\s*\\{', '{assert(rewsp);constauto&S=experience_.getS();auto&rews=*rewsp;for(size_ti=0;i<S.size();++i){constautoj=experience_.getGraph().getId(i,s,a);rews[i]=rewards_[i][j];}}'),
+('coopTSCtor', 'src/Factored/MDP/CooperativeThompsonModel.cpp', 'CooperativeThompsonModel::CooperativeThompsonModel\\s*\\([^)]*\\)\\s*:[^;]*?\\)\\s*\\{', '{setDiscount(discount);constauto&S=experience_.getS();auto&tProbs=transitions_.transitions;tProbs.reserve(S.size());rewards_.reserve(S.size());for(size_ti=0;i<S.size();++i){constautod1=experience_.getGraph().getSize(i);constautod2=S[i];tProbs.emplace_back(d1,d2);rewards_.emplace_back(d1);}sync();}'),
 ]
 
 BN = 'src/Factored/Utils/BayesianNetwork.cpp'
